@@ -82,8 +82,11 @@ def fresh(cfg):
     f = rhs_of(cfg["rhs"])
     y0 = np.array(Y0, dtype=dtype)
     tol = cfg.get("tol", 1e-6)
-    a = de.OdeSystem(f, y0=y0, t=(dtype(cfg["t0"]), dtype(cfg["tf"])), dt=dtype(cfg["dt0"]), rtol=dtype(tol), atol=dtype(tol),
+    # the caller's buffers are reused after construction (a scan loop refilling one work array): the system must have taken its own copy
+    buf = y0.copy(); tbuf = np.array([cfg["t0"], cfg["tf"]], dtype=dtype)
+    a = de.OdeSystem(f, y0=buf, t=(tbuf[0], tbuf[1]), dt=dtype(cfg["dt0"]), rtol=dtype(tol), atol=dtype(tol),
                      dense_output=bool(cfg.get("dense", False)), constants=dict(CONSTS))
+    buf[...] = dtype(77.0); tbuf[...] = dtype(-55.0)
     a.method = by_name(cfg["method"])
     return a, f, y0, dtype
 
